@@ -244,6 +244,9 @@ func genC18(e *emitter, tier string, seed int64) {
 		"for i = 0; i < 3 && u == 0; i = i + 1 {\n  u = 0\n}\n",
 		"for i = 0; i < 3; i = i + w {\n  w = 1\n}\n",
 		"for x in [1, 2, 3] {\n  if x == 2 {\n    p(\"stale\", u)\n  }\n  u = x\n}\n",
+		"for i = 0; i < 3; i = i + 1 {\n  for j = 0; j < 2; j = j + 1 {\n    p(i, j)\n  }\n  if i == 1 {\n    break\n  }\n  p(\"outer\", i)\n}\n",
+		"for x in [1, 2, 3] {\n  for y in [1] {\n  }\n  if x == 2 {\n    continue\n  }\n  p(x)\n}\n",
+		"l = [1, 2, 3]\nb = l[0:2]\nb[0] = 9\nl[1] = 7\np(l, b)\nc = l[:]\nc[2] = 0\np(l, c)\n",
 		"if true {\n  w = 1\n}\np(w)\n",
 		"if false {\n} else {\n  w = 1\n  if true {\n    w = 2\n    z = 3\n  }\n  p(w)\n  p(z)\n}\n",
 		"t = 5\nfor i = 0; i < 2; i = i + 1 {\n  p(t)\n  t = i\n  v = i\n}\np(t)\np(v)\n",
